@@ -397,4 +397,84 @@ theorem exec_no_stuck_partial (c : Cfg) (hc : c.WF) (s : State) (hr : Reach c s)
         · exfalso; apply hf; rw [Q.slotFree_iff]; exact Or.inr h
         · exact h
 
+/-! ## Non-vacuity: concrete reachable states satisfying the hypotheses -/
+
+/-- one worker, no local queue, no balance thread -/
+def demoCfg : Cfg := { L := 0, G := 1, steal := false, workers := [1], bal := none }
+
+/-- an external thread submits task 0, the worker runs it, then `stop()` -/
+def demoRun : List (Nat × Lbl) :=
+  [(0, .submit 0 false), (0, .gPushTk 0), (0, .publish), (0, .accept 0),
+   (1, .ldPop 0 0), (1, .ldPop 0 0), (1, .gPopTk 0), (1, .receive), (1, .run 0 true), (1, .done 0),
+   (1, .ldPop 0 0), (1, .ldPop 0 0), (1, .gPopTk 1),
+   (0, .stopBegin), (0, .ldRun true), (0, .stRun), (0, .gPushTk 1), (0, .publish),
+   (1, .receive), (1, .exit), (0, .join 1), (0, .stopEnd)]
+
+/-- one worker with local capacity 2, stealing on, a balance thread; task 0 spawns task 1 into the
+local queue (after `stop()` has begun), the worker pops it from there -/
+def demoCfg2 : Cfg := { L := 2, G := 1, steal := true, workers := [1], bal := some 2 }
+
+def demoRun2 : List (Nat × Lbl) :=
+  [(0, .submit 0 false), (0, .gPushTk 0), (0, .publish), (0, .accept 0),
+   (1, .ldPop 0 0), (1, .ldPop 0 0), (1, .ldPop 0 0), (1, .ldPop 0 0), (1, .gPopTk 0), (1, .receive),
+   (1, .run 0 true),
+   (0, .stopBegin), (0, .ldRun true), (0, .stRun),
+   (2, .ldRun false), (2, .exit), (0, .join 2), (0, .gPushTk 1),
+   (1, .submit 1 true), (1, .ldPop 0 0), (1, .ldPush 0 0), (1, .ldPush 0 0), (1, .stPush 0 1), (1, .publish),
+   (1, .accept 1), (1, .done 0),
+   (1, .ldPop 0 0), (1, .casPop 0 0 true 0), (1, .run 1 true), (1, .done 1),
+   (1, .ldPop 0 1), (1, .ldPop 0 1), (1, .ldPop 0 1), (1, .ldPop 0 1), (1, .gPopTk 1),
+   (0, .publish), (1, .receive), (1, .exit), (0, .join 1), (0, .stopEnd)]
+
+theorem demo_wf : demoCfg.WF ∧ demoCfg2.WF := by
+  constructor <;> (constructor <;> simp [demoCfg, demoCfg2])
+
+/-- the hypotheses of `exec_stop_drains` are satisfiable (and its conclusion is what happens): a task
+accepted before `stop()`, and a task pushed into a local queue while `stop()` was in progress -/
+example : ∃ s, Reach demoCfg s ∧ s.stopReturned = true ∧ s.known 0 = true ∧ s.preStop 0 = true ∧
+    s.done 0 = true ∧ s.runs 0 = 1 ∧ s.futReady 0 = true := by
+  have h : (runTrace demoCfg (State.init demoCfg) demoRun).map
+      (fun s => s.stopReturned && s.known 0 && s.preStop 0 && s.done 0 && (s.runs 0 == 1) && s.futReady 0) = some true := by
+    decide
+  cases hs : runTrace demoCfg (State.init demoCfg) demoRun with
+  | none => rw [hs] at h; cases h
+  | some s =>
+    rw [hs] at h
+    simp only [Option.map_some, Option.some.injEq, Bool.and_eq_true, beq_iff_eq] at h
+    exact ⟨s, reach_runTrace demoRun (Reachable.base rfl) hs, h.1.1.1.1.1, h.1.1.1.1.2, h.1.1.1.2, h.1.1.2, h.1.2, h.2⟩
+
+example : ∃ s, Reach demoCfg2 s ∧ s.stopReturned = true ∧ s.known 1 = true ∧ s.viaLocal 1 = true ∧
+    s.preStop 1 = false ∧ s.done 1 = true ∧ s.runs 1 = 1 := by
+  have h : (runTrace demoCfg2 (State.init demoCfg2) demoRun2).map
+      (fun s => s.stopReturned && s.known 1 && s.viaLocal 1 && !s.preStop 1 && s.done 1 && (s.runs 1 == 1)) = some true := by
+    decide
+  cases hs : runTrace demoCfg2 (State.init demoCfg2) demoRun2 with
+  | none => rw [hs] at h; cases h
+  | some s =>
+    rw [hs] at h
+    simp only [Option.map_some, Option.some.injEq, Bool.and_eq_true, beq_iff_eq, Bool.not_eq_true'] at h
+    exact ⟨s, reach_runTrace demoRun2 (Reachable.base rfl) hs, h.1.1.1.1.1, h.1.1.1.1.2, h.1.1.1.2, h.1.1.2, h.1.2, h.2⟩
+
+/-! ## The two small executors -/
+
+/-- **inplace executor**: when `execute`/`submit` returns success the task has run exactly once, to
+completion, on the calling thread, inside the call; an accepted task ran exactly once; a rejected
+submission (base `Executor`, `invoke` = -1) never ran -/
+theorem exec_inplace (s : Simple.State) (hr : Simple.ReachI s) :
+    (∀ t id s', Simple.stepInplace s t (.accept id) = some s' →
+      s.done id = true ∧ s.runs id = 1 ∧ s.ranOn id = some t) ∧
+    (∀ id, s.accepted id = true → s.runs id = 1 ∧ s.done id = true) ∧
+    (∀ id, s.rejected id = true → s.runs id = 0 ∧ s.done id = false ∧ s.accepted id = false) :=
+  ⟨fun t id _ h => Simple.inplace_accept_inside hr t id h,
+   fun id => (Simple.inplace_exactly_once hr id).1, fun id => (Simple.inplace_exactly_once hr id).2⟩
+
+/-- **new-thread executor**: when `join()` has returned every task whose submission had succeeded
+before `join()` was called has finished; a rejected submission never ran.
+(`run exactly once` for this executor is checked by the oracle on the real code only: the theorem
+would need the uniqueness of the detached thread per task, not modelled.) -/
+theorem exec_newthread_partial (s : Simple.State) (hr : Simple.ReachN s) (id : Nat) :
+    (s.joinReturned = true → s.preJoin id = true → s.done id = true) ∧
+    (s.rejected id = true → s.runs id = 0 ∧ s.accepted id = false ∧ s.done id = false) :=
+  Simple.newthread_join_drains hr id
+
 end Babylon.Properties.C07
